@@ -12,7 +12,9 @@ RULE = ("TLC enumerates type shapes of spec/JsonTypes.tla (25 leaf kinds incl. N
         "controls, html, 2/3/4-byte runes, U+FFFD, U+2028/9, invalid bytes and truncated / surrogate sequences), and every sequence of up to "
         "3 (thorough 4) units x EscapeHTML, rendered with several concrete bytes per unit and padded so that each unit visits every offset of "
         "the scanner's 8-byte words, must be written as the predicted literal by Marshal, Append, AppendEscape, Escape, Encoder and MarshalIndent, "
-        "as a value, element, field value, map key and map value. distinct_nontrivial = distinct shapes / scenarios / unit sequences")
+        "as a value, element, field value, map key and map value; plus spec/JsonEncoderStream.tla: every history of up to 4 (thorough 5) calls on "
+        "one Encoder (values that can and cannot be encoded, SetEscapeHTML, SetIndent, a writer that refuses a Write) replayed into the Encoder and "
+        "into encoding/json's, returns and bytes compared per call with the specification's. distinct_nontrivial = distinct shapes / scenarios / unit sequences")
 ASSUME = ["encoding/json is the oracle of record (the property is defined as agreement with it); it must agree with JsonFields.Visible",
           "time.Duration (the sanctioned difference) is not generated"]
 
@@ -34,6 +36,21 @@ def extra(ck, vec):
                                     timeout=3000), "string literals (escape)")
     ck.add_mc(g, "Gen_JsonString")
     ck.notes["string_unit_sequences"] = g.vectors
+    # one Encoder over a history of calls: values that cannot be encoded, settings changed on the way, a writer that refuses a Write
+    ops = {"MaxOps": 5 if thorough else 4}
+    mc = vlib.must_hold(vlib.tlc("JsonEncoderStream", "MC_JsonEncoderStream.cfg", workers=4, defines=ops),
+                        "JsonEncoderStream: output is the successes, value errors pass, write errors are reported and stick")
+    ck.add_mc(mc, "MC_JsonEncoderStream")
+    for cfg, inv, what in (("MC_JsonEncoderStreamShadow.cfg", "OutputIsSuccesses", "a failed Write reported as success"),
+                           ("MC_JsonEncoderStreamSticky.cfg", "ValueErrorsPass", "an encoding error that sticks")):
+        w = vlib.tlc("JsonEncoderStream", cfg, workers=4, expect_violation=True)
+        if w.ok or w.violation != inv:
+            raise vlib.Infra("JsonEncoderStream with %s (%s) should violate %s: the model is vacuous" % (cfg, what, inv))
+        ck.add_mc(w, cfg[:-4] + "(vacuity witness)")
+    with open(vec, "a") as sink:
+        g = vlib.must_hold(vlib.tlc("JsonEncoderStream", "Gen_JsonEncoderStream.cfg", workers=4, sink=sink, defines=ops), "encoder histories")
+    ck.add_mc(g, "Gen_JsonEncoderStream")
+    ck.notes["encoder_histories"] = g.vectors
 
 
 STR_SUB = '{"a", "q", "sc", "c", "h", "r2", "r4", "ls", "x", "tr"}'
